@@ -12,6 +12,7 @@ import (
 	"runtime/debug"
 	"sort"
 	"strings"
+	"sync"
 	"testing"
 	"time"
 
@@ -420,6 +421,90 @@ func TestCheckGrammar(t *testing.T) {
 	})
 }
 
+// ---- (b2) several evaluations at the same time, each on documents of its own --------------
+
+type parallelCase struct {
+	Queries []queryCase `json:"queries"`
+}
+
+func genTagPathQuery(t *rapid.T) string {
+	tag := func() string {
+		switch rapid.IntRange(0, 3).Draw(t, "tagkind") {
+		case 0:
+			return rapid.SampledFrom([]string{"BIRT", "DATE", "NAME", "PLAC", "DEAT", "MARR"}).Draw(t, "known")
+		case 1:
+			return fmt.Sprintf("_Q%d", rapid.IntRange(0, 1<<30).Draw(t, "custom"))
+		}
+		return fmt.Sprintf("%s%d", rapid.SampledFrom([]string{"_", "X", "ZZ", "_UID"}).Draw(t, "stem"), rapid.IntRange(0, 1<<30).Draw(t, "n"))
+	}
+	var args []string
+	for k := rapid.IntRange(1, 3).Draw(t, "nargs"); k > 0; k-- {
+		args = append(args, fmt.Sprintf("%q", tag()))
+	}
+	return rapid.SampledFrom([]string{".Individuals | ", ".Families | ", ".Nodes | ", ""}).Draw(t, "root") + "NodesWithTagPath(" + strings.Join(args, ", ") + ")" +
+		rapid.SampledFrom([]string{"", " | Length", " | .String", " | First(1)"}).Draw(t, "tail")
+}
+
+// checkParallel: every caller evaluates its own compiled query on documents nobody else
+// holds, so each call is an evaluation like any other: a value or an error, no panic. (A
+// fatal error of the runtime ends the process; the driver names the case by its breadcrumb.)
+func checkParallel(c parallelCase) *harness.Failure {
+	fails := make([]*harness.Failure, len(c.Queries))
+	start := make(chan struct{})
+	var wg sync.WaitGroup
+	for k := range c.Queries {
+		wg.Add(1)
+		go func(k int) {
+			defer wg.Done()
+			<-start
+			fails[k], _ = check(c.Queries[k])
+		}(k)
+	}
+	close(start)
+	wg.Wait()
+	for k, f := range fails {
+		if f != nil {
+			return harness.Failf("parallel:"+f.Sig, "with %d evaluations running at the same time, each on its own documents: query %d: %s", len(c.Queries), k, f.Msg)
+		}
+	}
+	return nil
+}
+
+func TestCheckParallel(t *testing.T) {
+	reflected = collectAccessors()
+	s := harness.NewSub("parallel-evaluations",
+		"4..8 programs (half of them NodesWithTagPath calls over 1..3 known, custom and never-seen tag names, half from the grammar of grammar-programs) compiled and evaluated at the same time by as many goroutines, each on freshly decoded documents of its own, each result then formatted five ways; oracle: every call is an evaluation like any other - compiled query or syntax error, value or error, no panic, and the process survives (a fatal error of the runtime is attributed through the breadcrumb); non-trivial = at least two of the programs parse")
+	s.Rapid(t, harness.Share(harness.Pick(24000, 600000)), 151, func(rt *rapid.T) {
+		var c parallelCase
+		for k := rapid.IntRange(4, 8).Draw(rt, "n"); k > 0; k-- {
+			qs := ""
+			if rapid.Bool().Draw(rt, "tagpath") {
+				qs = genTagPathQuery(rt)
+			} else {
+				qs = genProgram(rt)
+			}
+			c.Queries = append(c.Queries, queryCase{Query: qs, Doc: rapid.SampledFrom([]string{"empty", "tiny", "family", "family", "two"}).Draw(rt, "doc")})
+		}
+		s.Crumb(c)
+		stop := s.Watchdog(120*time.Second, c, harness.Failf("hang", "%d evaluations at the same time did not finish within 120 s", len(c.Queries)))
+		fl := checkParallel(c)
+		stop()
+		parsed := 0
+		for _, qc := range c.Queries {
+			if e, err := q.NewParser().ParseString(qc.Query); err == nil && e != nil {
+				parsed++
+			}
+		}
+		s.Eval(harness.JSON(c), parsed >= 2, fmt.Sprintf("programs:%d", len(c.Queries)))
+		if parsed >= 2 {
+			s.MaybeSample(c)
+		}
+		if fl != nil && s.Report(c, fl) {
+			rt.Fatalf("%s: %s", fl.Sig, fl.Msg)
+		}
+	})
+}
+
 // ---- (c) mutated documented examples, (d) random bytes ------------------------------------
 
 var examples = []string{
@@ -569,6 +654,21 @@ func init() {
 		fl, _ := check(c)
 		return fl
 	}
+	harness.RegisterReplay("parallel-evaluations", func(raw json.RawMessage) *harness.Failure {
+		var c parallelCase
+		if err := json.Unmarshal(raw, &c); err != nil {
+			return harness.Failf("bad-replay", "%v", err)
+		}
+		reflected = collectAccessors()
+		// a replay starts in a new process, where every custom tag is new again; the event
+		// needs two callers to meet, so the case is tried a number of times
+		for i := 0; i < 200; i++ {
+			if f := checkParallel(c); f != nil {
+				return f
+			}
+		}
+		return nil
+	})
 	for _, n := range []string{"token-sequences-exhaustive", "grammar-programs", "mutated-examples-and-bytes", "cli-query", "fuzz", "crash"} {
 		harness.RegisterReplay(n, rp)
 	}
